@@ -42,7 +42,9 @@ func (f *Unexport) Call(s *slip.Scope, args slip.List, depth int) slip.Object {
 	slip.CheckArgCount(s, depth, f, args, 1, 2)
 	p := slip.CurrentPackage
 	if 1 < len(args) {
-		p = slip.PackageFromArg(args[1])
+		if p = slip.PackageFromArg(args[1]); p == nil {
+			slip.PackagePanic(s, depth, nil, "Package %s does not exist.", args[1])
+		}
 	}
 	switch ta := args[0].(type) {
 	case slip.Symbol:
